@@ -1,61 +1,11 @@
-(* C18: recorded defect classes (premises of the theorems and run-time matcher). Definitions only. *)
+(* C18: recorded defect classes - none left after the repairs. Definitions only. *)
 From Coq Require Import String Ascii.
 From Coq Require Import List Arith Bool.
 Require Import TT.Model.Str TT.Model.TypeParse TT.Model.Render TT.Model.C05Emit TT.Spec.C05Known TT.Spec.C18Spec.
 Require Import TT.Proofs.TypeParseProofs.
 Import ListNotations.
 
-Inductive k18 :=
-| K18ResultComma   (* a mapped name inside a Result whose Ok type prints a comma is cut out of its context *)
-| K18TupleComma    (* a mapped name inside a tuple element that prints a comma keeps a bracket and is not looked up *)
-| K18Prefix.       (* add_types_prefix puts types. in front of the target: types.string[][] *)
-
-(* add_types_prefix puts the namespace in front of a text that begins with the mapped name's target:
-   under [] (or [] | null ..) an element text that is not just the name itself *)
-Fixpoint leftmost_mapped (m : mapping) (t : tstruct) : bool :=
-  match t with
-  | TCustom n => match lookup m n with Some _ => true | None => false end
-  | TArr u | TSet u | TOpt u | TRes u => leftmost_mapped m u
-  | _ => false
-  end.
-Fixpoint is_leaf (t : tstruct) : bool :=
-  match t with TPrim _ | TCustom _ => true | TRes u => is_leaf u | _ => false end.
-Fixpoint k18_prefix (m : mapping) (t : tstruct) : bool :=
-  match t with
-  | TOpt u | TRes u => k18_prefix m u
-  | TArr u | TSet u => leftmost_mapped m u && negb (is_leaf u)
-  | _ => false
-  end.
-
-(* the parser defects matter for C18 only when a mapped name sits inside the damaged region:
-   a tuple element, resp. the Ok argument of a Result, that prints a comma and mentions a key
-   (the Err argument of a Result is discarded by the parser and is not searched) *)
-Fixpoint k18_tuple (m : mapping) (t : rty) : bool :=
-  match t with
-  | RPath n args =>
-      if is_name n "Result" then match args with a :: _ => k18_tuple m a | [] => false end
-      else existsb (k18_tuple m) args
-  | RRef u => k18_tuple m u
-  | RTuple l => existsb (fun e => multi e && mentions m e) l || existsb (k18_tuple m) l
-  end.
-Fixpoint k18_result (m : mapping) (t : rty) : bool :=
-  match t with
-  | RPath n args =>
-      if is_name n "Result" then match args with a :: _ => multi a && mentions m a || k18_result m a | [] => false end
-      else existsb (k18_result m) args
-  | RRef u => k18_result m u
-  | RTuple l => existsb (k18_result m) l
-  end.
-
-Definition in_class18 (k : k18) (s : site) (md : mode) (m : mapping) (t : rty) : bool :=
-  mentions m t &&
-  match k with
-  | K18ResultComma => k18_result m t
-  | K18TupleComma => k18_tuple m t
-  | K18Prefix => site_qualified s && k18_prefix m (sem t)
-  end.
-Definition all18 := [K18ResultComma; K18TupleComma; K18Prefix].
-Definition classes18 (s : site) (md : mode) (m : mapping) (t : rty) : list k18 :=
-  filter (fun k => in_class18 k s md m t) all18.
-Definition kf_C18 (s : site) (md : mode) (m : mapping) (t : rty) : bool :=
-  existsb (fun k => in_class18 k s md m t) all18.
+(* All three recorded classes (prefix on the target, mapped name inside a comma-damaged tuple element
+   or Result) were repaired by C05-4-prefix-composite and C05-2-3-top-level-commas: no class is left,
+   the theorems of Properties/C18.v carry no class premise any more. *)
+Definition kf_C18 (s : site) (md : mode) (m : mapping) (t : rty) : bool := false.
